@@ -20,6 +20,9 @@ def check(ctx):
   r1(ctx)
   r2_r3(ctx)
   r4(ctx)
+  from . import c12
+  ctx.rule('C12.R5', 'shared with C12: a queued frame is written only if _HandleTimeout reported it live (otherwise its tag was already returned to the pool)')
+  c12.r5(ctx)
 
 
 def r1(ctx):
